@@ -98,6 +98,9 @@ def run(ctx: Ctx, tier: str) -> Result:
                 return True
             if isinstance(e.func, ast.Attribute) and e.func.attr in ("format", "join") and exact_text(e.func.value, fi, depth + 1):
                 return True
+            if isinstance(e.func, ast.Attribute) and e.func.attr == "decode" and isinstance(e.func.value, ast.Call) and \
+                    isinstance(e.func.value.func, ast.Attribute) and e.func.value.func.attr == "encode":
+                return True          # bytes.decode() makes a new plain str
             tg_ = t.resolve_call(e, fi)
             if tg_.repo and not tg_.ext and depth < 5:
                 return all(exact_text(r_.value, f_, depth + 1) if r_.value is not None else False
